@@ -29,9 +29,18 @@ Proved so far (every world, every consistent answer sequence, any strategy):
 * `Failure` is never returned to a well-behaved provider (`C05_no_failure`), and every finished run of a
   well-behaved provider ended in `Ok`, `NoSolution` or ran out of the model's fuel (`C05_outcomes*`;
   `protocolError` is the model's answer to an ill-typed answer, which a Rust provider cannot give).
-Open: **termination**: the model is fuelled, all theorems hold for every fuel, and "a bounded number
-of provider calls" is not proved — covered by the mirrored runs only (call budget 50 000, as in the
-repository's own tests).
+* TERMINATION (`C05_resolve_terminates`, `C05_resolve_total`; `Termination*.lean`, 3 100 lines): over a
+  finite registry (`FiniteWorld`: finitely many packages, and finitely many *test versions* that tell
+  apart all the sets the solver can build — constructed explicitly for `Range` from the bound values
+  occurring in the registry, `FiniteRegistry.finiteWorld`) there are explicit bounds
+  `N = (2·|pkgs|+12)·(B+1)^D + |pkgs| + 6` on the number of provider calls and `fuel0 = 3·(B+1)^D + 3` on
+  the iterations of the internal loops (`B = Σ_p (|tests p|+2) + 1`, `D = |pkgs|+2`) such that every
+  well-behaved run has returned within `N` answers, not by fuel exhaustion, hence with `Ok` or
+  `NoSolution`.  Measure: per decision level the total size of the terms on the test versions, read as
+  a base-(B+1) numeral; derivations, decisions and backjump+learned-derivation strictly decrease it; the
+  satisfier's global index strictly decreases along resolution steps.  For `Range` over any linear order:
+  `C05_range_resolve_terminates`, `C05_range_resolve_total`.  Non-vacuity: a concrete two-package
+  registry over the bit set (`C05_example_terminates`).
 -/
 import PubgrubProofs.PSInvariant
 import PubgrubProofs.SatisfierTheory
@@ -39,6 +48,8 @@ import PubgrubProofs.NoPanic
 import PubgrubProofs.NoPanicCex
 import PubgrubProofs.RangeAnyOrder
 import PubgrubProofs.RangeAnyOrder2
+import PubgrubProofs.Termination
+import PubgrubProofs.RangeTermination
 
 namespace Pubgrub.C05
 open Pubgrub
@@ -160,5 +171,59 @@ theorem C05_range_ps_wf (W : World P (Range V) V M) (hW : W.RangesWF) (debug : B
   by apply range_C05_ps_wf (P := P) (V := V) (M := M) (Pr := Pr) (E := E) <;> assumption
 
 end AnyOrder2
+
+section Termination
+variable [CanonicalEmpty S V]
+
+theorem C05_resolve_terminates (W : World P S V M) (hW : W.SetsValid) (root : P) (rv : V)
+    (fw : FiniteWorld W root rv) (debug : Bool) :
+    ∃ N fuel0 : Nat, ∀ fuel, fuel0 ≤ fuel → ∀ as : List (Answer P S V M Pr E), N ≤ as.length →
+      WellBehavedRun W debug fuel root rv as →
+      (Solver.after (Solver.start debug fuel root rv) as).2.isFinal = true ∧
+      (Solver.after (Solver.start debug fuel root rv) as).2 ≠ .fault .outOfFuel :=
+  resolve_terminates W hW root rv fw debug
+
+theorem C05_resolve_total (W : World P S V M) (hW : W.SetsValid) (root : P) (rv : V)
+    (fw : FiniteWorld W root rv) (debug : Bool) :
+    ∃ N fuel0 : Nat, ∀ fuel, fuel0 ≤ fuel → ∀ as : List (Answer P S V M Pr E), N ≤ as.length →
+      WellBehavedRun W debug fuel root rv as →
+      (∃ sel, (Solver.after (Solver.start debug fuel root rv) as).2 = .solution sel) ∨
+      (∃ t, (Solver.after (Solver.start debug fuel root rv) as).2 = .noSolution t) ∨
+      (∃ m, (Solver.after (Solver.start debug fuel root rv) as).2 = .protocolError m) :=
+  resolve_total W hW root rv fw debug
+
+end Termination
+
+section TerminationAnyOrder
+variable {P V M Pr E : Type} [DecidableEq P] [LinearOrder V] [LE Pr] [DecidableLE Pr]
+
+theorem C05_range_resolve_terminates (W : World P (Range V) V M) (hW : W.RangesWF) (root : P) (rv : V)
+    (fr : FiniteRegistry W root) (debug : Bool) :
+    ∃ N fuel0 : Nat, ∀ fuel, fuel0 ≤ fuel → ∀ as : List (Answer P (Range V) V M Pr E), N ≤ as.length →
+      WellBehavedRun W debug fuel root rv as →
+      (Solver.after (Solver.start debug fuel root rv) as).2.isFinal = true ∧
+      (Solver.after (Solver.start debug fuel root rv) as).2 ≠ .fault .outOfFuel :=
+  range_resolve_terminates W hW root rv fr debug
+
+theorem C05_range_resolve_total (W : World P (Range V) V M) (hW : W.RangesWF) (root : P) (rv : V)
+    (fr : FiniteRegistry W root) (debug : Bool) :
+    ∃ N fuel0 : Nat, ∀ fuel, fuel0 ≤ fuel → ∀ as : List (Answer P (Range V) V M Pr E), N ≤ as.length →
+      WellBehavedRun W debug fuel root rv as →
+      (∃ sel, (Solver.after (Solver.start debug fuel root rv) as).2 = .solution sel) ∨
+      (∃ t, (Solver.after (Solver.start debug fuel root rv) as).2 = .noSolution t) ∨
+      (∃ m, (Solver.after (Solver.start debug fuel root rv) as).2 = .protocolError m) :=
+  range_resolve_total W hW root rv fr debug
+
+end TerminationAnyOrder
+
+attribute [local instance] BitSet.instVersionSetBitSetFin BitSet.lawful in
+/-- non-vacuity: the termination theorem applied to a concrete two-package registry over the bit set -/
+theorem C05_example_terminates (debug : Bool) :
+    ∃ N fuel0 : Nat, ∀ fuel, fuel0 ≤ fuel →
+      ∀ as : List (Answer (Fin 2) (BitSet 3) (Fin 3) Unit Nat Unit),
+      N ≤ as.length → WellBehavedRun BitSet.exampleWorld debug fuel (0 : Fin 2) (0 : Fin 3) as →
+      (Solver.after (Solver.start debug fuel (0 : Fin 2) (0 : Fin 3)) as).2.isFinal = true ∧
+      (Solver.after (Solver.start debug fuel (0 : Fin 2) (0 : Fin 3)) as).2 ≠ .fault .outOfFuel :=
+  BitSet.example_terminates debug
 
 end Pubgrub.C05
